@@ -68,7 +68,11 @@ def rel_tree_cases(run: lib.Run, n: int):
         rel = cfg["rel"]
         if k % 2:
             rel = {"table": [["user:u1", "viewer", "doc:1", True], ["user:u1", "owner", "doc:1", False]], "default": gen.choice(r, [False, None])}
-        yield tree(3), env, f"reltree#{k}", rel
+        e = env
+        if k % 6 == 5:
+            # caveat context that is not an object: building the relationship query fails (not a type mismatch of an operator)
+            e = {**env, "context": {"_rebac": gen.choice(r, [5, True, [1], 1.5, {"k": 1}, {}])}}
+        yield tree(3), e, f"reltree#{k}", rel
 
 
 def cells(quick: bool):
@@ -125,7 +129,7 @@ def run_cases(run: lib.Run, audit: dict, scale: int = 1):
                          rel_tree_cases(run, (1500 if quick else 15000) * scale))
     for cond, env, label, rel in it:
         out = impl(cond, env, rel)
-        batch.append((cond, env, label, out))
+        batch.append((cond, env, label, out, rel))
         cmd = {"cmd": "c04", "cond": proto.enc(cond), "env": proto.enc(env), "consts": {},
                "oracle": proto.build_oracle(cond, env)}
         if rel is not None:
@@ -133,7 +137,7 @@ def run_cases(run: lib.Run, audit: dict, scale: int = 1):
         cmds.append(cmd)
     answers = proto.run_driver(cmds)
     through_guard(run, batch, answers)
-    for (cond, env, label, out), ans in zip(batch, answers):
+    for (cond, env, label, out, _rel), ans in zip(batch, answers):
         run.count(f"{'cell' if '|' in label else 'tree'}:{out if isinstance(out, str) else ('true' if out else 'false')}")
         run.case([cond, env], out is True or out is False, {"cond": cond, "env": env, "impl": out} if label.startswith("random") else None)
         if out != ans["model"]:
@@ -151,7 +155,26 @@ def through_guard(run: lib.Run, batch: list, answers: list) -> None:
     import json as _json
     from datetime import datetime as _dt
     picked = 0
-    for k, ((cond, env, label, out), ans) in enumerate(zip(batch, answers)):
+    for k, ((cond, env, label, out, rel), ans) in enumerate(zip(batch, answers)):
+        if label.startswith("reltree") and int(label.split("#")[1]) % 3 == 2:
+            # a whole tree as the condition of a one-rule policy: true → the rule applies, false / ill-typed → it does not, and a condition
+            # whose evaluation FAILS (not a type mismatch) never makes its rule apply
+            m = ans["model"]
+            pol = {"algorithm": "deny-overrides", "rules": [{"id": "c", "effect": "permit", "actions": ["read"], "resource": {"type": "doc"}, "condition": cond}]}
+            req = {"sid": "u1", "roles": [], "sattrs": {}, "action": "read", "rtype": "doc", "rid": "1", "rattrs": {}, "ctx": dict(env.get("context") or {})}
+            got = real.run_guard(pol, req, {"strict": False, "rel": rel})
+            have = (got["ok"]["effect"], got["ok"]["reason"]) if "ok" in got else ("raised", got.get("raised"))
+            picked += 1
+            run.count("tree-through-guard" + ("/evaluation-fails" if isinstance(m, str) and m.startswith("raised") else ""))
+            if isinstance(m, str) and m.startswith("raised"):
+                if have[0] == "permit":
+                    run.spec_failures.append({"label": label + "|guard", "cond": cond, "env": env, "rel": rel, "impl": list(have),
+                                              "spec": "a condition whose evaluation fails made its rule apply (permit)"})
+            else:
+                want = {True: ("permit", "matched"), False: ("deny", "condition_mismatch"), "mismatch": ("deny", "condition_type_mismatch")}[m]
+                if have != want:
+                    run.disagreements.append({"label": label + "|guard", "cond": cond, "env": env, "rel": rel, "impl": list(have), "model": list(want)})
+            continue
         if "|" not in label or not isinstance(cond, dict):
             continue
         op = next(iter(cond))
@@ -212,5 +235,15 @@ def replay(run: lib.Run, audit: dict, path: str) -> int:
     import json
     rp = json.load(open(path))
     c = rp["case"]
+    if str(c.get("label", "")).endswith("|guard"):
+        pol = {"algorithm": "deny-overrides", "rules": [{"id": "c", "effect": "permit", "actions": ["read"], "resource": {"type": "doc"}, "condition": c["cond"]}]}
+        env = c["env"]
+        req = {"sid": (env.get("subject") or {}).get("id", "u"), "roles": [], "sattrs": {}, "action": "read", "rtype": "doc", "rid": "1", "rattrs": {},
+               "ctx": dict(env.get("context") or {})}
+        got = real.run_guard(pol, req, {"strict": bool(env.get("__strict_types__")), **({"rel": c["rel"]} if c.get("rel") else {})})
+        have = [got["ok"]["effect"], got["ok"]["reason"]] if "ok" in got else ["raised", got.get("raised")]
+        print("condition evaluated alone:", impl(c["cond"], env, c.get("rel")))
+        print("one-rule policy through Guard now:", have, "recorded:", c["impl"], "expected:", c.get("model") or c.get("spec"))
+        return 1 if have == c["impl"] else 0
     print("impl now:", impl(c["cond"], c["env"]), "recorded impl:", c["impl"], "model:", c.get("model"))
     return 0
